@@ -223,19 +223,34 @@ func H_C21_str() {
 	checkParseString(in)
 }
 
-// H_C21_str_escape: \uXXXX escapes including surrogate pairs (13-byte literals, hex digits free).
+func lowerHex(c byte) bool { return ('0' <= c && c <= '9') || ('a' <= c && c <= 'f') }
+
+// H_C21_str_escape1: one \uXXXX escape with four free bytes (every digit class, invalid digits,
+// lone surrogates) followed by one free byte.
 //
-//verif:props=C21 bounds="\uXXXX\uXXXX"-with-8-free-bytes-and-"\uXXXX"+1-free-byte
-func H_C21_str_escape() {
+//verif:props=C21,C20 bounds="\uXXXX"+1-free-byte;XXXX-any-bytes
+func H_C21_str_escape1() {
+	h := nd.BytesN(5)
+	in := []byte{'"', '\\', 'u', h[0], h[1], h[2], h[3], h[4], '"'}
+	checkParseString(in)
+}
+
+// H_C21_str_escape2: two consecutive escapes (surrogate pairs, lone/reversed surrogates,
+// non-surrogates); the first escape's digits range over [0-9a-f], the second's over all bytes
+// in the thorough tier and over [0-9a-f] in the quick tier.
+//
+//verif:props=C21,C20 bounds="\uXXXX\uYYYY";X-in-[0-9a-f];Y-in-[0-9a-f](quick)/any-byte(thorough)
+func H_C21_str_escape2() {
 	h := nd.BytesN(8)
-	var in []byte
-	if nd.Bool() {
-		in = []byte{'"', '\\', 'u', h[0], h[1], h[2], h[3], '\\', 'u', h[4], h[5], h[6], h[7], '"'}
-		nd.Reach("two escapes")
-	} else {
-		in = []byte{'"', '\\', 'u', h[0], h[1], h[2], h[3], h[4], '"'}
-		nd.Reach("one escape")
+	for i := 0; i < 4; i++ {
+		nd.Assume(lowerHex(h[i]))
 	}
+	if !nd.Thorough() {
+		for i := 4; i < 8; i++ {
+			nd.Assume(lowerHex(h[i]))
+		}
+	}
+	in := []byte{'"', '\\', 'u', h[0], h[1], h[2], h[3], '\\', 'u', h[4], h[5], h[6], h[7], '"'}
 	checkParseString(in)
 }
 
@@ -388,7 +403,8 @@ func H_C21_doc() {
 	}
 	b := nd.Bytes(N)
 	d := NewDecoder(b)
-	for k := 0; ; k++ {
+	k := 0
+	for ; ; k++ {
 		nd.Assert(k <= 2*N+2, "decoder makes progress")
 		tok, err := d.Read()
 		if err != nil {
@@ -398,6 +414,13 @@ func H_C21_doc() {
 		if tok.Kind() == EOF {
 			break
 		}
+	}
+	if k == 0 {
+		// no value token at all (empty or whitespace-only input): the token reader reports EOF and
+		// it is protojson's message decoder that rejects it ("unexpected token"); not a JSON text.
+		nd.Reach("empty")
+		nd.Assert(!refDocument(b), "empty input is not a JSON text")
+		return
 	}
 	nd.Reach("accepted")
 	nd.Assert(refDocument(b), "accepted document is valid JSON")
